@@ -292,7 +292,29 @@ func anonLocals(s string) string { return localRe.ReplaceAllString(s, "$") }
 func fieldRooted(p string) bool { return p == "" || strings.HasPrefix(p, ".") }
 
 // mirrorDiff compares an encoder program with a decoder program op by op.
+// canonByteLoops: writing (reading) a byte slice element by element as u8 is the same wire step as writing
+// (reading) the slice raw.
+func canonByteLoops(ops []Op) []Op {
+	out := make([]Op, len(ops))
+	for i, o := range ops {
+		o.Sub = canonByteLoops(o.Sub)
+		if len(o.Cases) > 0 {
+			cs := make([]OpCase, len(o.Cases))
+			for j, c := range o.Cases {
+				cs[j] = OpCase{Tag: c.Tag, Ops: canonByteLoops(c.Ops)}
+			}
+			o.Cases = cs
+		}
+		if o.Kind == "loop" && len(o.Sub) == 1 && o.Sub[0].Kind == "u8" && o.Sub[0].Path == o.Path+"[*]" {
+			o = Op{Kind: "raw", Path: o.Path, Pos: o.Pos}
+		}
+		out[i] = o
+	}
+	return out
+}
+
 func mirrorDiff(e, d []Op, where string) []string {
+	e, d = canonByteLoops(e), canonByteLoops(d)
 	var diffs []string
 	n := len(e)
 	if len(d) != n {
@@ -886,8 +908,52 @@ var (
 	helperFnRe  = regexp.MustCompile(`fn\(([\w/.]+)\.([a-z]\w*)\)`)
 )
 
+// leafRefs: named types whose whole encoding is one primitive op ("ref(types.Hash256)" -> "fixed:32"): writing the
+// value through its EncodeTo method or writing its bytes directly is the same wire step.
+var leafRefs = map[string]string{}
+var leafRefRe = regexp.MustCompile(`ref\(([^()]+)\)`)
+
+func computeLeafRefs(progs map[string]*WireProg) {
+	leafRefs = map[string]string{}
+	single := map[string]Op{}
+	for _, wp := range progs {
+		if wp.Side != "enc" || wp.Recv == nil || len(wp.Ops) != 1 || wp.Fn.Name() != "EncodeTo" {
+			continue
+		}
+		single[typeName(wp.Recv)] = wp.Ops[0]
+	}
+	var resolve func(t string, depth int) string
+	resolve = func(t string, depth int) string {
+		op, ok := single[t]
+		if !ok || depth > 4 {
+			return ""
+		}
+		switch {
+		case strings.HasPrefix(op.Kind, "fixed:"), op.Kind == "u64", op.Kind == "u8", op.Kind == "bool", op.Kind == "time":
+			return op.Kind
+		case op.Kind == "ref":
+			return resolve(op.Typ, depth+1)
+		}
+		return ""
+	}
+	for t := range single {
+		if k := resolve(t, 0); k != "" {
+			leafRefs["ref("+t+")"] = k
+		}
+	}
+}
+
+func normLeafRefs(line string) string {
+	return leafRefRe.ReplaceAllStringFunc(line, func(m string) string {
+		if k, ok := leafRefs[m]; ok {
+			return k
+		}
+		return m
+	})
+}
+
 func layoutLines(wp *WireProg) []string {
-	ops := canonCases(wp.Ops)
+	ops := canonByteLoops(canonCases(wp.Ops))
 	if wp.Recv == nil {
 		ops = rerootPaths(ops, "") // a plain function's data parameter plays the receiver's role
 	}
@@ -897,6 +963,7 @@ func layoutLines(wp *WireProg) []string {
 		// an unexported helper is the same step whether it is a method of the value or a function taking it
 		ls[i] = helperRefRe.ReplaceAllString(ls[i], "helper($1.$2)")
 		ls[i] = helperFnRe.ReplaceAllString(ls[i], "helper($1.$2)")
+		ls[i] = normLeafRefs(ls[i])
 	}
 	return ls
 }
@@ -915,6 +982,7 @@ func layoutPath(verif string) string { return filepath.Join(verif, "sa", "layout
 
 func dumpLayoutRef(p *Program, path string) error {
 	progs := ExtractWirePrograms(p)
+	computeLeafRefs(progs)
 	var entries []layoutEntry
 	for _, k := range sortedKeys(progs) {
 		wp := progs[k]
@@ -941,6 +1009,12 @@ func checkLayoutRef(c *Ctx, progs map[string]*WireProg, prop string) {
 	if err := json.Unmarshal(b, &entries); err != nil {
 		c.Undecided("layout", "reference", "", "bad layout reference: "+err.Error())
 		return
+	}
+	computeLeafRefs(progs)
+	for i := range entries {
+		for j := range entries[i].Lines {
+			entries[i].Lines[j] = normLeafRefs(entries[i].Lines[j])
+		}
 	}
 	have := map[string][]string{} // content -> names
 	for _, k := range sortedKeys(progs) {
